@@ -7,6 +7,7 @@ import collections
 import struct
 import sys
 import threading
+import time
 import types
 
 _MODS = {}
@@ -279,6 +280,12 @@ class ScriptedAdbDevice(object):
           cmd, a0, a1, payload = self.handshake.pop(0)
           if cmd == 'SILENCE':
             raise timeout_error()
+          if cmd == 'SPAM':
+            # from here on the device keeps sending unrelated packets (stale traffic of an earlier session), never pausing
+            self.handshake.insert(0, (cmd, a0, a1, payload))
+            self.spam_count = getattr(self, 'spam_count', 0) + 1
+            time.sleep(0.002)
+            cmd, a0, a1, payload = ('OKAY', 1, 2, '') if self.spam_count % 2 else ('WRTE', 1, 7, 'a:b:c')
           self._emit(cmd, a0, a1, payload)
       if not self.out:
         t = self.max_block_s if timeout_ms is None else min(self.max_block_s or 1e18, timeout_ms / 1000.0)
